@@ -12,7 +12,7 @@ theorem runNone_data {d v} (h : runNone d = .ok v) : v = asVal d := by
   all_goals (split at h <;> cases h)
 
 theorem badType_not_ok {exps d v} : badType exps d ≠ .ok v := by
-  unfold badType; split <;> intro h <;> cases h
+  unfold badType; intro h; cases h
 
 theorem constrained_ok {rs v w} (h : constrained rs v = .ok w) : w = v := by
   unfold constrained at h; split at h <;> cases h; rfl
